@@ -998,6 +998,11 @@ pub fn resolve(g: &BuildingG) -> Building {
         for t in 0..n {
             if g.mag == 4 && t > 0 {
                 for l in lines.iter_mut() {
+                    // (output energies are left as they are: they only weight the auxiliary split, and a system
+                    // whose outputs all vanished would no longer be assignable)
+                    if matches!(l.kind, Kind::Out { .. }) {
+                        continue;
+                    }
                     let v = l.vals[t];
                     let frac = v - v.trunc();
                     let cents = (frac.abs() * 100.0).round() as i64;
